@@ -242,10 +242,11 @@ def g_agg(rng):
     dets = []
     for _ in range(rng.choice([0, 1, 2, 3, 4])):
         r = g_res(rng)
-        b = rng.choice(['ok', 'ok', 'ok', 'raise'])
+        b = rng.choice(['ok', 'ok', 'ok', 'ok', 'raise', 'raise', 'none'])     # none: detect() returns None
         dets.append({'attrs': named(r['attrs']), 'url': r['url'], 'behaviour': b,
                      'roe': b == 'raise' and rng.random() < 0.3})
-    return {'kind': 'agg', 'initial': g_res(rng), 'detectors': dets}
+    # initial None: the `initial_resource or Resource.create()` branch (no resource variables in the environment)
+    return {'kind': 'agg', 'initial': None if rng.random() < 0.3 else g_res(rng), 'detectors': dets}
 
 
 def g_envtext(rng):
@@ -776,22 +777,33 @@ def run_agg(case):
                     def detect(self):
                         if spec['behaviour'] == 'raise':
                             raise RuntimeError('detector failure')
+                        if spec['behaviour'] == 'none':
+                            return None
                         return Resource(codec.mk_dict(spec['attrs']), spec['url'])
                 return D(raise_on_error=spec['roe'])
             dets.append(make())
-        init = Resource(codec.mk_dict(case['initial']['attrs']), case['initial']['url'])
-        init0 = snap(init)
+        saved = {k: os.environ.pop(k, None) for k in _ENV_KEYS}
         try:
-            res = get_aggregated_resources(dets, init)
-        except RuntimeError as e:
-            return {'reraised': str(e), 'initial_unchanged': snap(init) == init0}
+            init = None if case['initial'] is None else \
+                Resource(codec.mk_dict(case['initial']['attrs']), case['initial']['url'])
+            init0 = None if init is None else snap(init)
+            try:
+                res = get_aggregated_resources(dets, init)
+            except RuntimeError as e:
+                return {'reraised': str(e), 'initial_unchanged': init is None or snap(init) == init0}
+            except AttributeError as e:
+                return {'not_resource': str(e), 'initial_unchanged': init is None or snap(init) == init0}
+        finally:
+            for k, v in saved.items():
+                if v is not None:
+                    os.environ[k] = v
         a = res.attributes
         same = Resource(dict(a), res.schema_url)
         other = Resource(dict(a, **{'zz-other': 1}), res.schema_url)
         views = {'len': len(a), 'iter': [codec.enc_key(k) for k in a], 'copy_keys': [codec.enc_key(k) for k in a.copy()],
                  'items_agree': all(a[k] is a.copy()[k] or a[k] == a.copy()[k] for k in a),     # (nan != nan) 'copy_is_plain': type(a.copy()).__name__,
                  'copy_detached': a.copy() is not a._dict}
-        return {'final': snap(res), 'initial_unchanged': snap(init) == init0, 'views': views,
+        return {'final': snap(res), 'initial_unchanged': init is None or snap(init) == init0, 'views': views,
                 'json': json.dumps(json.loads(res.to_json()), sort_keys=True),
                 'json_expected': json.dumps(json.loads(json.dumps({'attributes': dict(a), 'schema_url': res.schema_url})),
                                             sort_keys=True),
@@ -807,14 +819,17 @@ def oracle_agg(case, obs):
     if 'raised' in obs:
         return ['get_aggregated_resources raised: ' + obs['raised']]
     v = []
-    reraise = any(d['behaviour'] == 'raise' and d['roe'] for d in case['detectors'])
+    # the first detector that ends the aggregation: a re-raising one, or one whose result is not a resource
+    ender = next((d for d in case['detectors'] if (d['behaviour'] == 'raise' and d['roe']) or d['behaviour'] == 'none'), None)
+    reraise = ender is not None and ender['behaviour'] == 'raise'
     if ('reraised' in obs) != reraise:
         return [f'exception of a detector {"not " if reraise else ""}re-raised (raise_on_error={reraise})']
     if not obs['initial_unchanged']:
         v.append('the initial resource was modified')
-    if reraise:
-        return v
-    cur = ref_resource(case['initial']['attrs'], case['initial']['url'])
+    if ender is not None:
+        return v        # (a non-resource result: the statement does not say; recorded, compared with the model)
+    cur = ref_create(dict(case, env={}, given=None, url=None)) if case['initial'] is None else \
+        ref_resource(case['initial']['attrs'], case['initial']['url'])
     for d in case['detectors']:
         nxt = ref_resource(d['attrs'], d['url']) if d['behaviour'] == 'ok' else {'items': [], 'url': ''}
         cur, _ = ref_merge(cur, nxt)
@@ -1343,8 +1358,10 @@ def model_request(case, obs):
     if k == 'agg':
         if 'raised' in obs:
             return None
-        return {'kind': 'agg', 'base': {'attrs': m_kvs(case['initial']['attrs']), 'url': case['initial']['url']},
+        return {'kind': 'agg', 'base': None if case['initial'] is None else
+                {'attrs': m_kvs(case['initial']['attrs']), 'url': case['initial']['url']},
                 'dets': [{'ok': {'attrs': m_kvs(d['attrs']), 'url': d['url']}} if d['behaviour'] == 'ok'
+                         else {'notResource': True} if d['behaviour'] == 'none'
                          else {'fails': d['roe']} for d in case['detectors']]}
     if k == 'merge':
         return {'kind': 'merge', 'chain': [{'attrs': m_kvs(r['attrs']), 'url': r['url']} for r in case['chain']]}
@@ -1396,7 +1413,8 @@ def compare(case, obs, resp):
             return []
         return ['implementation raised, model does not: ' + obs['raised']]
     if k == 'agg':
-        if ('raised' in resp) != ('reraised' in obs):
+        if ('raised' in resp) != ('reraised' in obs or 'not_resource' in obs) or \
+                (resp.get('raised') == 'AttributeError') != ('not_resource' in obs):
             return [f'model {resp} vs implementation {obs}']
         if 'raised' in resp:
             return []
@@ -1440,7 +1458,8 @@ def label(case, obs):
         return f'sched/{len(case["writers"])}w/' + ('overlap' if overlap else 'serial') + ('/merge_in' if merge else '') + \
             ('/cap0' if cap == 0 else '/capNone' if cap is None else '/full' if len(case['init']) >= cap else '/room')
     if k == 'agg':
-        return 'agg/' + ('reraised' if 'reraised' in obs else 'failed-detector' if any(
+        return 'agg/' + ('initial-none/' if case['initial'] is None else '') + (
+            'reraised' if 'reraised' in obs else 'not-a-resource' if 'not_resource' in obs else 'failed-detector' if any(
             d['behaviour'] == 'raise' for d in case['detectors']) else 'ok')
     if k == 'merge':
         refused = any(i.get('is_self') for i in obs.get('identity', []))
